@@ -3,7 +3,7 @@
 (*   * the extracted decision procedure spec_construct_b is sound (what    *)
 (*     it accepts is, for the lower-triangle reader, the pencil the        *)
 (*     property names) and accepts every output of the model of the        *)
-(*     repaired routines (VF25);                                           *)
+(*     current routines (VF42);                                            *)
 (*   * concrete witnesses: the routines before F9 (`*_shipped`) and the    *)
 (*     LLTSA routine before F25 (`lltsa_repaired`) do NOT produce that     *)
 (*     pencil.                                                             *)
@@ -26,12 +26,14 @@ Lemma ref_pencil_tables m N D Xl W dvl :
   ref_pencil m N D Xl W dvl =
   (mtab D D (ref_lhs m N (mof Xl) W), mtab D D (ref_rhs m N (mof Xl) (vof dvl))).
 Proof.
-  assert (E : forall i j, XMXt N (mof Xl) (sym2 (mof (mtab N N (dense_of W)))) i j
-                          = XMXt N (mof Xl) (sym2 (dense_of W)) i j).
-  { intros i j. apply XMXt_ext. intros s t Hs Ht. unfold sym2, madd, mtrans.
+  assert (E : forall (X : mat Qc) i j, XMXt N X (sym2 (mof (mtab N N (dense_of W)))) i j
+                          = XMXt N X (sym2 (dense_of W)) i j).
+  { intros X i j. apply XMXt_ext. intros s t Hs Ht. unfold sym2, madd, mtrans.
     rewrite !mof_mtab by assumption. reflexivity. }
   unfold ref_pencil. destruct m; cbn [ref_lhs ref_rhs]; f_equal;
-    try (apply mtab_ext; intros i j _ _; apply E); reflexivity.
+    try (apply mtab_ext; intros i j _ _; apply E); try reflexivity.
+  apply mtab_ext. intros i j Hi Hj. rewrite E. unfold lltsa_lhs.
+  apply XMXt_ext_rows; intros s Hs; apply mof_mtab; assumption.
 Qed.
 
 Lemma indices_ok_of_bad_index N (W : sparse Qc) : bad_index N W = None -> indices_ok N W.
@@ -81,7 +83,7 @@ Lemma wf_matb_mtab D (A : mat Qc) : wf_matb D D (mtab D D A) = true.
 Proof. apply wf_matb_ok. apply mtab_wf. Qed.
 
 Theorem model_meets_spec m N D Xl W dvl lhs rhs :
-  run_construct VF25 m N D Xl W dvl = Ok (lhs, rhs) ->
+  run_construct VF42 m N D Xl W dvl = Ok (lhs, rhs) ->
   spec_construct_b m N D Xl W dvl lhs rhs = true.
 Proof.
   unfold run_construct.
@@ -93,10 +95,11 @@ Proof.
   - intros H. injection H as <- <-. rewrite !wf_matb_mtab. cbn [andb].
     exact (model_tables_pass D (npe_lhs N (mof Xl) W) (npe_rhs N (mof Xl))
              (npe_repaired (mof Xl) N W) (npe_seen_gen D N (mof Xl) W Eb)).
-  - destruct (Nat.eqb N 0); [discriminate|].
+  - destruct (Nat.eqb N 0) eqn:EN; [discriminate|]. apply Nat.eqb_neq in EN.
     intros H. injection H as <- <-. rewrite !wf_matb_mtab. cbn [andb].
     exact (model_tables_pass D (lltsa_lhs N (mof Xl) W) (lltsa_rhs N (mof Xl))
-             (lltsa_fixed (mof Xl) N W) (lltsa_seen_gen D N (mof Xl) W Eb)).
+             (lltsa_centred (mof Xl) N W)
+             (lltsa_seen_gen D N (mof Xl) W (Qc_of_nat_neq0 N EN) Eb)).
   - destruct (negb (Nat.eqb (length dvl) N)); [discriminate|].
     intros H. injection H as <- <-. rewrite !wf_matb_mtab. cbn [andb].
     exact (model_tables_pass D (lpp_lhs N (mof Xl) W) (lpp_rhs N (mof Xl) (vof dvl))
@@ -181,6 +184,30 @@ Proof.
   refine (Qc_neq_by_compute _ _ _ (HA _ _)); [vm_compute; reflexivity|lia|lia].
 Qed.
 
+(* F42: same two samples, W = e_0 e_0^T (a nullspace shift lives on the diagonal): the routine
+   between F25 and F42 returns lhs = 2, the pencil on centred features has lhs = 0 *)
+Definition sW : sparse Qc := [(0%nat, 0%nat, qz 1)].
+
+Lemma sW_ok : indices_ok 2 sW.
+Proof. repeat constructor. Qed.
+
+Theorem lltsa_f25_refuted_w :
+  indices_ok 2 sW /\
+  ~ is_pencil 1 (lltsa_lhs 2 aX sW) (lltsa_rhs 2 aX) (lltsa_fixed aX 2 sW).
+Proof.
+  split; [exact sW_ok|].
+  intros [HA _]. specialize (HA 0%nat 0%nat).
+  refine (Qc_neq_by_compute _ _ _ (HA _ _)); [vm_compute; reflexivity|lia|lia].
+Qed.
+
+Theorem lltsa_f25_translation_refuted_w :
+  exists c : vec Qc,
+    p_lhs (lltsa_fixed (shift_by aX c) 2 sW) 0%nat 0%nat <>
+    p_lhs (lltsa_fixed aX 2 sW) 0%nat 0%nat.
+Proof.
+  exists (fun _ => qz (-1)). apply Qc_neq_by_compute. vm_compute. reflexivity.
+Qed.
+
 (* the same data moved by c = -1 (i.e. centred): the routine after F9 returns something else,
    although nothing the property names has changed *)
 Theorem lltsa_f9_translation_refuted_w :
@@ -221,7 +248,7 @@ Lemma lW_ok : indices_ok 4 lW.
 Proof. repeat constructor. Qed.
 
 Lemma e_contract_lltsa :
-  oracle_contract 1 (p_lhs (seen (lltsa_fixed lX 4 lW))) (p_rhs (seen (lltsa_fixed lX 4 lW))) lV llam.
+  oracle_contract 1 (p_lhs (seen (lltsa_centred lX 4 lW))) (p_rhs (seen (lltsa_centred lX 4 lW))) lV llam.
 Proof. split; apply meq_by_compute; vm_compute; reflexivity. Qed.
 
 Lemma e_contract_lpp :
@@ -232,5 +259,5 @@ Lemma e_solution : gen_eig_solution 2 1 (npe_lhs 2 eX eW) (npe_rhs 2 eX) eV elam
 Proof. split; apply meq_by_compute; vm_compute; reflexivity. Qed.
 
 Lemma e_run :
-  exists lhs rhs, run_construct VF25 NPE 2 2 [[qz 1; qz 1]; [qz 0; qz 1]] wW [] = Ok (lhs, rhs).
+  exists lhs rhs, run_construct VF42 NPE 2 2 [[qz 1; qz 1]; [qz 0; qz 1]] wW [] = Ok (lhs, rhs).
 Proof. eexists. eexists. vm_compute. reflexivity. Qed.
